@@ -76,5 +76,8 @@ func VerifC09(c map[string]any) any {
 	if c["kind"] == "push-legacy" {
 		return VerifC09Legacy(c)
 	}
+	if c["kind"] == "push-legacy-conc" {
+		return VerifC09LegacyConc(c)
+	}
 	return ollama.VerifC09(c)
 }
